@@ -30,7 +30,26 @@ def cases(rng, tier):
     b = [c for c in c01.cases(rng.fork("c01"), tier) if c["kind"].startswith("crash@f") or c["kind"].startswith("crash@idx")]
     for c in a + b:
         c["kind"] = "c11/" + c["kind"]
-    return a + b[: max(8, len(a) // 2)]
+    out = a + b[: max(8, len(a) // 2)]
+    # a flush sits inside its segments.idx critical section (index loaded, not yet written, flush lock held) while a
+    # compaction hand-over of the same shard starts: the index swap must stay atomic with respect to the flush
+    for i in range(3 if tier == "quick" else 60):
+        cfg = dict(rng.choice(shardprop.CFGS)); cfg["segments_per_merge"] = 2
+        cap = cfg["fill_factor"] * cfg["event_per_zone"]
+        nseg = rng.range(2, 3)
+        ops = []
+        for _ in range(nseg):
+            ops += [("S", 0, rng.below(2)) for _ in range(cap)]
+        ops += [("O",), ("MARKHITS", "idx_loaded"), ("MARKHITS", "cp_output_written"), ("PARK", "idx_loaded")]
+        ops += [("SN", 0, rng.below(2)) for _ in range(cap)]
+        # the flush holds the flush lock, has loaded segments.idx and has not written it yet; the compaction
+        # writes its output and reaches its hand-over while the flush is still there
+        ops += [("WAITMORE", "idx_loaded", 1), ("BGC",), ("WAITMORE", "cp_output_written", 1), ("SN", 0, 0)]
+        ops += [("RELEASE", "idx_loaded"), ("JOINC",), ("SETTLE",), ("O",)]
+        if rng.chance(1, 2):
+            ops += [("R",), ("O",)]
+        out.append(shardprop.mk_case("c11/concurrent-handover", cfg, 1, 2, ops))
+    return out
 
 
 run_sides = shardprop.run_sides
